@@ -35,6 +35,11 @@
       C06Farthest, C06Climb (MoveToBlock's loops, FindPathTo), C06Wf + C06Delete (TreeWF preserved; `subtree` = descendants),
       C06Reorg (mutual induction over the fuel for ParseTillBlock / fall-back / MoveToBlock with a quadratic fuel measure),
       C06Deliver (one delivery; induction over the history).
+    * SIBLING ORDER (fourth pass): `deleteBranch_keeps_sibling_order` / `deleteBranch_parent_keeps_order` — DeleteBranch leaves
+      every surviving node's child list unchanged except that the parent of the removed block loses exactly that block, the
+      others keeping their (arrival) order (`filter` = `erase`; a swap-remove does not satisfy this);
+      `sibling_order_after_delete_example` — a concrete run (4 siblings, the 2nd invalid, the 3rd and 4th tie) where that
+      order decides the fall-back tip. Proofs/C06Order.
   What the statement does NOT cover (assumptions of `BlockTree`, all explicit): branches longer than 2560 blocks (undo data
   not written for the early blocks of a long ParseTillBlock, undo files pruned and keyed by height only); blocks re-using a
   txid that is still unspent on their own branch; the code's float64 work sums (the model compares exact rationals — known
@@ -47,6 +52,7 @@ import GocoinV.Proofs.C06Chain
 import GocoinV.Proofs.C06Commit
 import GocoinV.Proofs.C06Path
 import GocoinV.Proofs.C06Deliver
+import GocoinV.Proofs.C06Order
 import GocoinV.Proofs.C06Example
 namespace GocoinV.Props.C06
 open GocoinV.UtxoOps GocoinV.ChainTree
@@ -377,6 +383,33 @@ theorem farthest_is_max_work (U : List Block) (c : Chain) (w : TreeWF U c) (hU :
   obtain ⟨nL, h1, h2⟩ := farthest_spec w hU hr hrb
   exact ⟨nL, h1, fun x n hn => (workOf_not_gt_iff w hU hn h1).mpr (h2 x n hn)⟩
 
+-- ------------------------------------------------------------------------------------------ sibling order
+
+/-- **DeleteBranch keeps the arrival order of the remaining children.** `childs` mirrors `BlockTreeNode.Childs` (addChild
+appends: arrival order), and the fall-back after a failed reorganisation lets the FIRST child's subtree win an equal-work
+tie, so the order is observable in the tip. When the block `nx` that failed to connect is removed with its descendants,
+every surviving node `y` keeps its child list, except that the parent of `nx` loses exactly `nx`: the new list is the old
+one with `nx` taken out and NOTHING ELSE MOVED (`filter`: a sublist in the same order; equal to `List.erase` since a child
+list has no repetitions). A swap-remove (last child moved into the freed slot) does not satisfy this — the harness stream
+`siblings` makes that difference visible on the real code. -/
+theorem deleteBranch_keeps_sibling_order (U : List Block) (c : Chain) (w : TreeWF U c) (nx : Nat) (nxt : Node)
+    (hn : getNode c nx = some nxt) (y : Nat) (p : Node) (hp : getNode c y = some p) (ha : ¬ Desc c nx y) :
+    ∃ p', getNode (deleteBranch c nx) y = some p' ∧
+      p'.childs = p.childs.filter (· != nx) ∧
+      (y ≠ nxt.parent → p'.childs = p.childs) ∧
+      (p.childs.Nodup → p'.childs = p.childs.erase nx) := by
+  obtain ⟨p', h1, h2, h3⟩ := deleteBranch_childs w hn y p hp ha
+  exact ⟨p', h1, h2, h3, fun hnd => by rw [h2]; exact filter_ne_eq_erase_of_nodup _ _ hnd⟩
+
+/-- the parent of the removed block itself: it survives, it did list `nx`, and afterwards lists its other children in
+their old order. -/
+theorem deleteBranch_parent_keeps_order (U : List Block) (c : Chain) (w : TreeWF U c) (nx : Nat) (nxt : Node)
+    (hn : getNode c nx = some nxt) (hx : nx ≠ c.root) :
+    ∃ p p', getNode c nxt.parent = some p ∧ getNode (deleteBranch c nx) nxt.parent = some p' ∧ nx ∈ p.childs ∧
+      p'.childs = p.childs.filter (· != nx) ∧ List.Sublist p'.childs p.childs := by
+  obtain ⟨p, p', h1, h2, h3, h4⟩ := deleteBranch_parent_childs w hn hx
+  exact ⟨p, p', h1, h2, h3, h4, by rw [h4]; exact List.filter_sublist⟩
+
 -- ------------------------------------------------------------------------------------------ the tie-break counterexample
 
 def easyBits : Nat := 0x207fffff
@@ -402,6 +435,32 @@ prefers the first child's subtree. -/
 theorem tie_after_failed_reorg_counterexample :
     (runAll (tieDeliveries.take 5)).tip = 4 ∧ (runAll tieDeliveries).tip = 5 ∧
     (getNode (runAll tieDeliveries) 6).isNone = true := by
+  decide +kernel
+
+/-- P (id 1) on the root; its children 2, 3, 4, 5 in arrival order, 3 invalid once connected (spends an unknown output);
+6 on 4, 7 on 5 (equal work, 6 seen first), 8 on 3 and 9 on 8 (the invalid sibling's branch becomes the heaviest) -/
+def siblingDeliveries : List Block :=
+  [ { id := 1, parent := 100, bits := easyBits, txs := [cbTx 1001] },
+    { id := 2, parent := 1, bits := easyBits, txs := [cbTx 1002] },
+    { id := 3, parent := 1, bits := easyBits,
+      txs := [cbTx 1003, { txid := 2000, ins := [{ txid := 999, vout := 0 }], outs := [], scriptsOk := true }] },
+    { id := 4, parent := 1, bits := easyBits, txs := [cbTx 1004] },
+    { id := 5, parent := 1, bits := easyBits, txs := [cbTx 1005] },
+    { id := 6, parent := 4, bits := easyBits, txs := [cbTx 1006] },
+    { id := 7, parent := 5, bits := easyBits, txs := [cbTx 1007] },
+    { id := 8, parent := 3, bits := easyBits, txs := [cbTx 1008] },
+    { id := 9, parent := 8, bits := easyBits, txs := [cbTx 1009] } ]
+
+/-- **The sibling order after a deletion decides the fall-back** (concrete run of the model's `deliver`): before the last
+delivery the tip is 6 (first seen of the two equal-work leaves 6 and 7) and P lists [2, 3, 4, 5]; delivering 9 starts a
+reorganisation that fails at 3; afterwards P lists [2, 4, 5] — 4 still before 5 — and the fall-back returns to 6. With the
+last child moved into the freed slot the list would be [2, 5, 4] and the fall-back would end on 7. -/
+theorem sibling_order_after_delete_example :
+    (runAll (siblingDeliveries.take 8)).tip = 6 ∧
+    (getNode (runAll (siblingDeliveries.take 8)) 1).map (·.childs) = some [2, 3, 4, 5] ∧
+    (deliver (runAll (siblingDeliveries.take 8)) (siblingDeliveries.getD 8 default)).2.name = "movefailed" ∧
+    (getNode (runAll siblingDeliveries) 1).map (·.childs) = some [2, 4, 5] ∧
+    (runAll siblingDeliveries).tip = 6 ∧ (getNode (runAll siblingDeliveries) 3).isNone = true := by
   decide +kernel
 
 -- non-vacuity of the hypotheses used above
@@ -485,6 +544,17 @@ example : ∃ (c : Chain) (path : List PE) (t d r : Node), TreeWF exU c ∧ Path
     t.height = path.length ∧ BlockTree c.root exU ∧ getNode c 3 = some d ∧ getNode c c.root = some r := by
   obtain ⟨w, ⟨path, hp, t, ht, hth⟩, _⟩ := exInv (exU.take 3) (exTake 3)
   exact ⟨exRun (exU.take 3), path, t, _, _, w, hp, ht, hth, by rw [exRoot _ (exTake 3)]; exact exU_blockTree, by rfl, by rfl⟩
+
+-- deleteBranch_keeps_sibling_order / deleteBranch_parent_keeps_order: the state after x1, a2, b2 (b2 = id 3 stored aside, x1 lists
+-- [2, 3]); removing b2: hypotheses hold for y = root, and the parent x1 keeps [2]
+example : ∃ (c : Chain) (nxt r : Node), TreeWF exU c ∧ getNode c 3 = some nxt ∧ 3 ≠ c.root ∧ getNode c c.root = some r ∧
+    ¬ Desc c 3 c.root ∧ (getNode c 1).map (·.childs) = some [2, 3] ∧
+    (getNode (deleteBranch c 3) 1).map (·.childs) = some [2] := by
+  have hr := exRoot _ (exTake 3)
+  refine ⟨exRun (exU.take 3), _, _, (exInv (exU.take 3) (exTake 3)).wf, by rfl, by rw [hr]; decide, by rfl,
+    fun h => ?_, by decide +kernel, by decide +kernel⟩
+  have := Desc.root_only h
+  rw [hr] at this; cases this
 
 -- non-vacuity of the hypotheses of the replay-invariant theorems
 
